@@ -10,7 +10,7 @@ func init() {
 			Old: "res.readBacklog = append(clockedReadsInProgress, res.readBacklog...)\n\tres.readsInProgress = nil",
 			New: "res.readBacklog = append(clockedReadsInProgress, res.readBacklog...)", Expect: "tcpMailboxesLocal.readsInProgress"})
 		seed(Seed{Name: "local-commit-forgets-snapshot", Prop: p, Rule: "RES-RESTORE", File: ar,
-			Old: "\tres.oldValue = res.value\n\treturn nil", New: "\treturn nil", Expect: "snapshot"})
+			Old: "\tres.oldValue = res.value\n\t// the clock a later reader", New: "\t// the clock a later reader", Expect: "snapshot"})
 		seed(Seed{Name: "file-abort-keeps-cache", Prop: p, Rule: "RES-RESTORE", File: "distsys/resources/filesystem.go",
 			Old: "\tres.writePending = nil\n\tres.cachedRead = nil\n\treturn nil", New: "\tres.writePending = nil\n\treturn nil", Expect: "file.cachedRead"})
 		seed(Seed{Name: "persistent-abort-commits-inner", Prop: p, Rule: "RES-OWNER", File: "distsys/resources/persistent.go",
